@@ -75,6 +75,16 @@ def extra(chk, g, tier):
         chk.fail("R-ALLOC-CHECKED", v["instance"], v["message"], v["loc"], v["detail"])
     chk.count("R-ALLOC-CHECKED", sub.rules.get("R-ALLOC-CHECKED", {"ok": 0})["ok"], ["alloc"])
     chk.rules["R-ALLOC-CHECKED"]["desc"] = "allocator results are compared with their failure value before use; a failed mmap never escapes as a usable region (imported from C15)"
+    # crypt_ra / crypt_gensalt_ra hand a caller-recorded block to the worker: that the block really has the size of
+    # struct crypt_data on every path is C14's typestate rule, a memory-safety obligation as well (imported)
+    from . import c14
+    sub = Check("C04", tier)
+    sub.known = {}
+    c14.run(sub, tier)
+    for v in sub.violations:
+        chk.fail("R-RA-TYPESTATE", v["instance"], v["message"], v["loc"], v["detail"])
+    chk.count("R-RA-TYPESTATE", sum(r["ok"] for r in sub.rules.values()), ["crypt_ra"])
+    chk.rules["R-RA-TYPESTATE"]["desc"] = "crypt_ra / crypt_gensalt_ra never run the worker on a block smaller than struct crypt_data, never lose or double-free the caller's block (imported from C14)"
     # gost-yescrypt: not in the crypt grid (see K.UNCOVERED); for the settings crypt_gensalt can produce (exact lengths) the
     # composition grid interprets its whole crypt path, with the same obligations on every access
     from .. import compose_grid as CG
